@@ -397,6 +397,46 @@ def check_remaining_time(ck: Checker, rid: str, s: Srv):
         ck.ob(rid, s.enqueue, wn.ast, ok, f'the wait is bounded by `{norm_text(targ)}`, recomputed from the clock in every pass of the re-check loop (time remaining)' if ok else f'every pass of the re-check loop waits `{norm_text(targ)}` again, which is not reduced by the time already spent: a caller that keeps losing the freed slot waits far beyond its timeout')
 
 
+def check_single_deadline(ck: Checker, rid: str, s: Srv):
+    """`timeout` bounds admission and result together: the deadline stored for the wait for the result is computed from a
+    clock reading taken when the request arrived -- before the admission wait -- not from one taken after admission
+    (which would give a request that had to wait for a slot almost twice its timeout)."""
+    cfg, sc = enqueue_cfg(ck, s)
+    waits = {wn.id for wn, _ in _wait_nodes(cfg, sc, s)}
+    dl = []
+    for n in cfg.nodes:
+        a = n.ast
+        if n.kind == 'stmt' and isinstance(a, ast.Assign):
+            if isinstance(a.value, ast.Dict):
+                for k, v in zip(a.value.keys, a.value.values):
+                    if isinstance(k, ast.Constant) and k.value == 'deadline':
+                        dl.append((n, v))
+            for t in a.targets:
+                if isinstance(t, ast.Subscript) and isinstance(t.slice, ast.Constant) and t.slice.value == 'deadline':
+                    dl.append((n, a.value))
+    ck.need(dl, f'{s.enqueue.key}: no deadline is stored with the request')
+    after_wait = reachable(cfg, [e.dst for w in waits for e in cfg.succ[w]]) if waits else set()
+    for n, v in dl:
+        probs = []
+        if 'timeout' not in names_in(v):
+            probs.append(f'the deadline `{norm_text(v)}` does not depend on the caller\'s timeout')
+        if _has_clock(v) and n.id in after_wait:
+            probs.append('the deadline is computed from a clock reading taken after the admission wait')
+        for nm in names_in(v) - {'timeout'}:
+            rd = reaching_defs(cfg, nm, start=cfg.entry).get(n.id, frozenset())
+            for d in rd:
+                dn = cfg.nodes[d]
+                if dn.kind == 'stmt' and isinstance(dn.ast, ast.Assign) and _has_clock(dn.ast.value) and d in after_wait:
+                    probs.append(f'the deadline `{norm_text(v)}` is anchored at `{nm}`, a clock reading taken after the admission wait (L{dn.lineno}): a request that waited for a slot gets its full timeout again for the result — almost twice what the caller allowed')
+        # anchored at a stored field (`fut.data['t1'] + timeout`): the stores of that field
+        for sub in [x for x in ast.walk(v) if isinstance(x, ast.Subscript)]:
+            txt = norm_text(sub)
+            for dn in cfg.nodes:
+                if dn.kind == 'stmt' and isinstance(dn.ast, ast.Assign) and any(norm_text(t) == txt for t in dn.ast.targets) and _has_clock(dn.ast.value) and dn.id in after_wait and n.id in reachable(cfg, [dn.id]):
+                    probs.append(f'the deadline `{norm_text(v)}` is anchored at `{txt}`, which is stamped after the admission wait (L{dn.lineno}): a request that waited for a slot gets its full timeout again for the result')
+        ck.ob(rid, s.enqueue, n.ast, not probs, '; '.join(sorted(set(probs))) if probs else f'the deadline `{norm_text(v)}` is anchored at the arrival of the request: admission wait and result wait share one timeout')
+
+
 def check_reject_at_once(ck: Checker, rid: str, s: Srv, param='backpressure'):
     """With backpressure a request that finds the server full is rejected without waiting: no wait on the
     admission condition is reachable unless the `backpressure` flag was tested and found false."""
